@@ -23,6 +23,12 @@ import fakenet
 PORT = 6101
 
 
+def inner(shape):
+    """('close', request_body, shape): the request is a POST that carries request_body and says
+    `Connection: close` (only as the LAST request of a session); its response has shape `shape`"""
+    return shape[2] if shape[0] == 'close' else shape
+
+
 def make_app(shapes, gen=None):
     """gen[i] True -> request i is answered by a generator application (start_response is
     called and HTTPError raised at the first next()); False -> plain function returning a list
@@ -53,7 +59,7 @@ def make_app(shapes, gen=None):
     def app(environ, start_response):
         path = environ['PATH_INFO']
         i = int(path.rsplit('r', 1)[1])
-        shape = shapes[i]
+        shape = inner(shapes[i])
         if shape[0] not in ('len', 'nolen', 'empty', 'len0', 'err', 'lencut'):
             raise ValueError(shape[0])
         if shape[0] == 'err' or (gen and gen[i]):
@@ -65,6 +71,7 @@ def make_app(shapes, gen=None):
 
 def expected_body(shape, i):
     """the body the WSGI app produced for request i (what the client must see)"""
+    shape = inner(shape)
     from ioflo.aio.http import httping
     kind = shape[0]
     if kind in ('len', 'nolen'):
@@ -170,6 +177,12 @@ def run_session(shapes, schedule, gen=None, max_rounds=60):
     def enqueue():
         if pending:
             i = pending.popleft()
+            if shapes[i][0] == 'close':
+                beta.requests.append(odict([('method', u'POST'), ('path', u'/r%d' % i),
+                                            ('qargs', odict()), ('fragment', u''),
+                                            ('headers', odict([('Accept', 'text/plain'), ('Connection', 'close')])),
+                                            ('body', shapes[i][1])]))
+                return
             beta.requests.append(odict([('method', u'GET'), ('path', u'/r%d' % i),
                                         ('qargs', odict()), ('fragment', u''),
                                         ('headers', odict([('Accept', 'text/plain')]))]))
